@@ -456,9 +456,10 @@ def instances(tier):
     # the saliency=None branch of every trainer (its own normaliser: the number of observations of the slice)
     for ct in ('full', 'diagonal', 'spherical'):
         out.append(gaussian_fit(ct, nosal=True))
-    out.append(ccsg_both(nosal=True))
-    out.append(vmf_both(nosal=True))
-    out.append(watson_both(nosal=True))
+    # (three observations in a stack of two: a count taken from the wrong axis does not coincide with the right one)
+    out.append(ccsg_both(N=3, nosal=True))
+    out.append(vmf_both(N=3, nosal=True))
+    out.append(watson_both(N=3, nosal=True))
     out.append(from_cov_rel(False, 1e-3))
     out.append(from_cov_rel('trace', 1e-3))
     out.append(from_cov_rel('eigenvalue', 1e-3))
